@@ -37,6 +37,23 @@ impl Runner {
         }
     }
 
+    #[cfg(feature = "verif-hooks")]
+    fn verif_info(&self, params: Params, task: ParTask, entry: &'static str) -> crate::verif::RunInfo {
+        crate::verif::RunInfo {
+            task: match task {
+                ParTask::Collect => "Collect",
+                ParTask::EarlyReturn => "EarlyReturn",
+                ParTask::Reduce => "Reduce",
+            },
+            entry,
+            params,
+            input_len: self.input_len,
+            max_num_threads: self.max_num_threads,
+            chunk: self.chunk_size.inner(),
+            chunk_is_exact: matches!(self.chunk_size, ResolvedChunkSize::Exact(_)),
+        }
+    }
+
     pub fn do_spawn(&self, num_spawned: usize, has_more: HasMore) -> bool {
         match num_spawned {
             x if x >= self.max_num_threads - 1 => false,
@@ -97,6 +114,10 @@ impl Runner {
         F: Fn(usize) + Sync,
     {
         let runner = Self::new(params, task_type, iter.try_get_len());
+        #[cfg(feature = "verif-hooks")]
+        crate::verif::run_begin(runner.verif_info(params, task_type, "run"));
+        #[cfg(feature = "verif-hooks")]
+        let thread_task = &crate::verif::wrap_task(thread_task);
 
         let mut num_spawned = 0;
 
@@ -104,6 +125,8 @@ impl Runner {
             let mut chunk: usize = runner.chunk_size.inner();
             'lag_period: loop {
                 for _ in 0..LAG_PERIODICITY {
+                    #[cfg(feature = "verif-hooks")]
+                    crate::verif::pre_decide(num_spawned);
                     match runner.do_spawn(num_spawned, iter.has_more()) {
                         false => break 'lag_period,
                         true => {
@@ -114,6 +137,8 @@ impl Runner {
                 }
 
                 lag();
+                #[cfg(feature = "verif-hooks")]
+                crate::verif::pre_chunk(num_spawned);
                 match runner.next_chunk_size(num_spawned, iter.has_more()) {
                     None => break 'lag_period,
                     Some(c) => chunk = c,
@@ -122,6 +147,8 @@ impl Runner {
 
             s.spawn(move || thread_task(chunk));
             num_spawned += 1;
+            #[cfg(feature = "verif-hooks")]
+            crate::verif::before_join(num_spawned);
         });
 
         num_spawned
@@ -139,6 +166,10 @@ impl Runner {
         Out: Send + Sync,
     {
         let runner = Self::new(params, task_type, iter.try_get_len());
+        #[cfg(feature = "verif-hooks")]
+        crate::verif::run_begin(runner.verif_info(params, task_type, "run_map"));
+        #[cfg(feature = "verif-hooks")]
+        let thread_task = &crate::verif::wrap_task(thread_task);
 
         let mut num_spawned = 0;
 
@@ -147,6 +178,8 @@ impl Runner {
             let mut chunk: usize = runner.chunk_size.inner();
             'lag_period: loop {
                 for _ in 0..LAG_PERIODICITY {
+                    #[cfg(feature = "verif-hooks")]
+                    crate::verif::pre_decide(num_spawned);
                     match runner.do_spawn(num_spawned, iter.has_more()) {
                         false => break 'lag_period,
                         true => {
@@ -157,6 +190,8 @@ impl Runner {
                 }
 
                 lag();
+                #[cfg(feature = "verif-hooks")]
+                crate::verif::pre_chunk(num_spawned);
                 match runner.next_chunk_size(num_spawned, iter.has_more()) {
                     None => break 'lag_period,
                     Some(c) => chunk = c,
@@ -165,6 +200,8 @@ impl Runner {
 
             handles.push(s.spawn(move || thread_task(chunk)));
             num_spawned += 1;
+            #[cfg(feature = "verif-hooks")]
+            crate::verif::before_join(num_spawned);
 
             let mut vec = vec![];
             for x in handles {
@@ -188,6 +225,10 @@ impl Runner {
         R: Fn(T, T) -> T,
     {
         let runner = Self::new(params, task_type, iter.try_get_len());
+        #[cfg(feature = "verif-hooks")]
+        crate::verif::run_begin(runner.verif_info(params, task_type, "reduce"));
+        #[cfg(feature = "verif-hooks")]
+        let thread_task = &crate::verif::wrap_task(thread_task);
 
         std::thread::scope(|s| {
             let mut threads = Vec::with_capacity(runner.max_num_threads);
@@ -195,6 +236,8 @@ impl Runner {
             let mut chunk: usize = runner.chunk_size.inner();
             'lag_period: loop {
                 for _ in 0..LAG_PERIODICITY {
+                    #[cfg(feature = "verif-hooks")]
+                    crate::verif::pre_decide(threads.len());
                     match runner.do_spawn(threads.len(), iter.has_more()) {
                         false => break 'lag_period,
                         true => threads.push(s.spawn(move || thread_task(chunk))),
@@ -202,6 +245,8 @@ impl Runner {
                 }
 
                 lag();
+                #[cfg(feature = "verif-hooks")]
+                crate::verif::pre_chunk(threads.len());
                 match runner.next_chunk_size(threads.len(), iter.has_more()) {
                     None => break 'lag_period,
                     Some(c) => chunk = c,
@@ -209,6 +254,8 @@ impl Runner {
             }
 
             threads.push(s.spawn(move || thread_task(chunk)));
+            #[cfg(feature = "verif-hooks")]
+            crate::verif::before_join(threads.len());
 
             let num_threads = threads.len();
             let result = threads
